@@ -7,6 +7,7 @@ import (
 	"context"
 	"errors"
 	"fmt"
+	"github.com/mimecast/dtail/internal/vhook"
 	"io"
 	"os"
 	"strings"
@@ -83,6 +84,7 @@ func (f readFile) Start(ctx context.Context, ltx lcontext.LContext,
 	if err != nil {
 		return err
 	}
+	vhook.Point("fs.positioned", f.filePath, f.seekEOF)
 
 	rawLines := make(chan *bytes.Buffer, 100)
 	truncate := make(chan struct{})
